@@ -22,9 +22,9 @@ def run(tier):
         "C03", tier, profiles=["kv"], preds=PREDS, res_filter=res_filter,
         mc_depth={"quick": {"kv": 4}, "thorough": {"kv": 5}},
         gen_depth={"quick": {"kv": 3}, "thorough": {"kv": 4}},
-        rnd={"quick": [("kv", 40, 200)], "thorough": [("kv", 400, 300), ("txn", 150, 200)]},
+        rnd={"quick": [("kv", 40, 200), ("txn", 30, 150)], "thorough": [("kv", 400, 300), ("txn", 150, 200)]},
         level_text="", pred_doc=DOC,
-        rpc={"quick": [("kv", 4, 80)], "thorough": [("kv", 25, 150)]},
+        rpc={"quick": [("kv", 4, 80), ("txn", 3, 80)], "thorough": [("kv", 25, 150), ("txn", 15, 150)]},
         assumptions=["TLC 1.8 evaluates spec/StoreTrace.tla correctly", "projection h-store/internal/storeh copies fields only",
                      "keys are non-empty byte strings without NUL (the KV endpoint rejects empty keys)",
                      "session IDs are UUIDs minted by the endpoint and never re-used while live"])
